@@ -1,0 +1,31 @@
+//go:build verif
+
+package query
+
+import (
+	"sync/atomic"
+
+	"github.com/mithrandie/csvq/lib/file"
+)
+
+// VerifParallelTasks counts task managers that were assigned more than one goroutine.
+var VerifParallelTasks int64
+
+// VerifMaxGoroutines records the largest number of goroutines assigned to one task manager.
+var VerifMaxGoroutines int64
+
+func verifPoint(name string, path string) {
+	file.VerifPoint(name, path)
+}
+
+func verifParallel(n int) {
+	if 1 < n {
+		atomic.AddInt64(&VerifParallelTasks, 1)
+		for {
+			cur := atomic.LoadInt64(&VerifMaxGoroutines)
+			if int64(n) <= cur || atomic.CompareAndSwapInt64(&VerifMaxGoroutines, cur, int64(n)) {
+				break
+			}
+		}
+	}
+}
